@@ -326,6 +326,31 @@ pub fn generate(repo: &PathBuf, s: &mut String) -> Result<(), String> {
         if !checked && !remove_one(&mut st, "index") {
             return Err("cmd::node::upgrade: the `nodes[0]` was not seen by the scan".into());
         }
+        // `node_registry.nodes[index]`: modelled (`upgradeIndexSites`) when every index is a `position` in that same list
+        // and the list is not resized between `get_services_for_ops` and the loop that indexes
+        let g = free_fn(&file, "get_services_for_ops")?;
+        let gb = toks(&g.block);
+        let pushes = gb.matches("service_indices.push(").count();
+        let bound = gb.matches("ifletSome(index)=node_registry.nodes.iter().position(").count();
+        let from_position = pushes > 0 && pushes == gb.matches("service_indices.push(index);").count() && pushes == bound && gb.contains("Ok(service_indices)") && !gb.contains("service_indices[");
+        let at = stmt_pos(&f.block, "letservice_indices=get_services_for_ops(&node_registry,peer_ids,service_names)?;");
+        let lp = stmt_pos(&f.block, "for&indexin&service_indices{");
+        let tail_ok = match (at, lp) {
+            (Some(a), Some(l)) if a < l => {
+                let loop_toks = toks(&f.block.stmts[l]);
+                let between: String = f.block.stmts[a + 1..=l].iter().map(toks).collect();
+                loop_toks.matches("node_registry.nodes[").count() == 1
+                    && loop_toks.contains("letnode=&mutnode_registry.nodes[index];")
+                    && !["node_registry.nodes.push(", "node_registry.nodes.remove(", "node_registry.nodes.retain(", "node_registry.nodes.clear(", "node_registry.nodes.truncate(", "node_registry.nodes.pop(", "node_registry.nodes.drain(", "node_registry.nodes=", "node_registry=", "&mutnode_registry)", "&mutnode_registry,"].iter().any(|m| between.contains(m))
+            }
+            _ => false,
+        };
+        let modelled = from_position && tail_ok;
+        if modelled && !remove_one(&mut st, "index") {
+            return Err("cmd::node::upgrade: `nodes[index]` was not seen by the scan".into());
+        }
+        s.push_str(&format!("/-- `upgrade` indexes `node_registry.nodes[index]` once, inside `for &index in &service_indices`; `get_services_for_ops` pushes nothing but the result of `node_registry.nodes.iter().position(..)` ({pushes} pushes), and the list is neither resized nor replaced between the two -/\ndef upgradeIndexFromPosition : Bool := {}\n", lean_bool(modelled)));
+        sites_def(s, "servicesForOpsSites", &sites(&g.block, &no_env, false, false));
         sites_def(s, "upgradeSites", &st);
     }
     Ok(())
